@@ -216,6 +216,13 @@ func (ra *RouteAuthenticator) Authenticate(req *http.Request, route *MatchedRout
 		route.Authenticator = ra
 		return true, nil, nil
 	}
+	// a requirement naming a scheme that no authenticator can check is never satisfied:
+	// it does not apply, whatever the other schemes say
+	for _, scheme := range ra.Schemes {
+		if _, ok := ra.Authenticator[scheme]; !ok {
+			return false, nil, nil
+		}
+	}
 	// iterate in proper order
 	var lastResult interface{}
 	for _, scheme := range ra.Schemes {
